@@ -450,7 +450,7 @@ func c17Rotation(t *testing.T, rep *Report) {
 			}
 		}
 		for _, ph := range states {
-			for _, label := range []string{"", "lbl"} {
+			for _, label := range []string{"", "lbl", "+secretkey"} {
 				caseIdx++
 				if !mine(caseIdx) {
 					continue
@@ -464,7 +464,15 @@ func c17Rotation(t *testing.T, rep *Report) {
 						kr, _ := ml.NewKeyring(nil, oldK)
 						nd, err := newNode(fmt.Sprintf("n%d", i), ip4(byte(i+1)), func(c *ml.Config) {
 							c.Keyring = kr
-							c.Label = label
+							if label == "+secretkey" {
+								// one application hands over its ring AND names the current key (the others
+								// hand over a ring only); each keeps rotating through the ring object it created
+								if i == 0 {
+									c.SecretKey = oldK
+								}
+							} else {
+								c.Label = label
+							}
 						})
 						if err != nil {
 							panic(err)
